@@ -336,6 +336,18 @@ def c13(res: CheckResult) -> None:
     # same way as on the sync twins (e.g. before any precondition is evaluated)
     from icv import tablecheck as T
     T.check_misuse(res, ic, only=lambda cell: cell["c"] in ("async_function", "async_method"))
+    # argument resolution of the async wrapper: the preconditions of a coroutine function see what its body receives, for
+    # every signature x call shape of ICBind
+    from icv import bindcheck as B
+    from icv.result import MachineryError
+    r, vectors = B.model_check_bind(4, 5)
+    if not r.ok:
+        raise MachineryError("ICBind: {}".format(r.violated or r.error))
+    res.states += r.distinct
+    res.transitions += r.states
+    stats = B.replay_vectors(res, vectors, ic, only_roles={"pre_async"})
+    res.traces += stats["calls"]
+    res.add_unit("signatures x call shapes on coroutine functions (preconditions)", **stats)
 
 
 # ---- definition-time machine ---------------------------------------------------------------------------
